@@ -12,7 +12,10 @@ use std::{
 };
 
 use serde_json::json;
-use trustfall_core::interpreter::{ResolveInfo, VertexInfo};
+use trustfall_core::{
+    interpreter::{NeighborInfo, ResolveEdgeInfo, ResolveInfo, VertexInfo},
+    ir::EdgeParameters,
+};
 
 use crate::{
     common::{cov, Ctx, Samples},
@@ -29,13 +32,53 @@ pub struct ReqProbe {
     /// (vid, requested property, reported list, kind)
     pub bad: RefCell<Vec<(String, String, Vec<String>, &'static str)>>,
     pub seen: RefCell<BTreeSet<(String, String)>>,
+    /// every required-properties list reported for a vertex through *any* hint object: the
+    /// ResolveInfo of a call at that vertex, the destination of the edge being resolved, and
+    /// look-ahead along not-yet-resolved edges (recursively): (vid, how it was obtained, list)
+    pub lists: RefCell<Vec<(String, String, Vec<String>)>>,
+    /// edge names of the schema (for look-ahead)
+    pub edge_names: Vec<String>,
+}
+
+impl ReqProbe {
+    fn record(&self, vid: String, how: String, info: &impl VertexInfo) {
+        self.lists.borrow_mut().push((vid, how, info.required_properties().map(|p| p.name.to_string()).collect()));
+    }
+    fn look_ahead(&self, how: &str, info: &NeighborInfo, depth: usize) {
+        self.record(format!("{:?}", info.vid()), how.to_string(), info);
+        if depth < 3 {
+            for e in &self.edge_names {
+                for ei in info.edges_with_name(e) {
+                    self.look_ahead(&format!("{how} -> {e}"), ei.destination(), depth + 1);
+                }
+            }
+        }
+    }
+    fn look_ahead_from(&self, how: &str, info: &ResolveInfo) {
+        self.record(format!("{:?}", info.vid()), how.to_string(), info);
+        for e in &self.edge_names {
+            for ei in info.edges_with_name(e) {
+                self.look_ahead(&format!("{how} -> {e}"), ei.destination(), 1);
+            }
+        }
+    }
 }
 
 impl Probe<V> for ReqProbe {
+    fn on_start(&self, _call: usize, edge: &str, _params: &EdgeParameters, info: &ResolveInfo) {
+        self.look_ahead_from(&format!("resolve_starting_vertices({edge})"), info);
+    }
+    fn on_neighbors(&self, _call: usize, ty: &str, edge: &str, _params: &EdgeParameters, info: &ResolveEdgeInfo) {
+        self.look_ahead(&format!("resolve_neighbors({ty}.{edge}).destination()"), &info.destination(), 0);
+    }
+    fn on_coercion(&self, _call: usize, ty: &str, to: &str, info: &ResolveInfo) {
+        self.look_ahead_from(&format!("resolve_coercion({ty} -> {to})"), info);
+    }
     fn on_property(&self, _call: usize, _ty: &str, prop: &str, info: &ResolveInfo) {
         *self.calls.borrow_mut() += 1;
         let listed: Vec<String> = info.required_properties().map(|p| p.name.to_string()).collect();
         let vid = format!("{:?}", info.vid());
+        self.look_ahead_from(&format!("resolve_property({prop})"), info);
         self.seen.borrow_mut().insert((vid.clone(), prop.to_string()));
         if !listed.iter().any(|p| p == prop) {
             self.bad.borrow_mut().push((vid.clone(), prop.to_string(), listed.clone(), "missing"));
@@ -59,13 +102,26 @@ pub fn run(ctx: &Ctx) -> ! {
     let calls = AtomicU64::new(0);
     let distinct: Mutex<BTreeSet<u64>> = Mutex::new(BTreeSet::new());
     let samples = Mutex::new(Samples::new(4));
+    let edge_names: Vec<String> = {
+        let sm = &uni.world.schema;
+        let mut v: BTreeSet<String> = BTreeSet::new();
+        for t in sm.types.values() {
+            for f in &t.fields {
+                if sm.types.contains_key(f.ty.base()) {
+                    v.insert(f.name.clone());
+                }
+            }
+        }
+        v.into_iter().collect()
+    };
+    let lists_checked = AtomicU64::new(0);
     let stats = corpus::drive(
         ctx,
         &uni,
         &cfg,
         &|_| {},
         &|case| {
-            let probe = Rc::new(ReqProbe::default());
+            let probe = Rc::new(ReqProbe { edge_names: edge_names.clone(), ..Default::default() });
             let adapter = Arc::new(Probed::new(GraphAdapter::new(uni.world.clone(), case.ds.clone()), probe.clone()));
             let out = engine::execute(adapter, case.cq.iq.clone(), case.args);
             if let Exec::Panic { .. } = out {
@@ -91,6 +147,29 @@ pub fn run(ctx: &Ctx) -> ! {
                 rep["observed"] = json!({"vertex": vid, "requested_property": prop, "required_properties": listed});
                 ctx.fail(&key, &format!("resolve_property({prop}) at {vid} but required_properties() = {listed:?}"), rep);
             }
+            // every list reported for a vertex, however it was obtained, must contain every property
+            // the engine requested at that vertex
+            {
+                let seen = probe.seen.borrow();
+                for (vid, how, list) in probe.lists.borrow().iter() {
+                    lists_checked.fetch_add(1, Ordering::Relaxed);
+                    for (svid, prop) in seen.iter().filter(|(v, _)| v == vid) {
+                        let _ = svid;
+                        if !list.iter().any(|p| p == prop) {
+                            let mut rep = case.replay();
+                            rep["observed"] = json!({"vertex": vid, "requested_property": prop, "required_properties": list, "list_obtained_through": how});
+                            let kind = if how.contains("destination()") || how.contains("->") { "required-properties-missing:in-list-reported-through-an-edge" } else { "required-properties-missing" };
+                            ctx.fail(kind, &format!("resolve_property({prop}) at {vid} but the list reported through {how} is {list:?}"), rep);
+                        }
+                    }
+                    let uniq: BTreeSet<&String> = list.iter().collect();
+                    if uniq.len() != list.len() {
+                        let mut rep = case.replay();
+                        rep["observed"] = json!({"vertex": vid, "required_properties": list, "list_obtained_through": how});
+                        ctx.fail("required-properties-duplicate", "a required-properties list names a property twice", rep);
+                    }
+                }
+            }
             if *probe.calls.borrow() > 6 {
                 samples.lock().unwrap().offer(|| json!({"query_text": case.cq.text, "dataset": case.ds.name, "resolve_property_calls": *probe.calls.borrow(), "distinct_vertex_property_pairs": probe.seen.borrow().len()}));
             }
@@ -100,7 +179,8 @@ pub fn run(ctx: &Ctx) -> ! {
     let mut c = cov();
     c.insert("evaluations".into(), json!(calls.load(Ordering::Relaxed)));
     c.insert("distinct_nontrivial".into(), json!(distinct.lock().unwrap().len()));
-    c.insert("rule".into(), json!("every resolve_property call of every (query, dataset) case of the enumerated space is checked against ResolveInfo::required_properties() (membership and no duplicates); distinct = distinct (query, vertex id, property) triples seen in a call"));
+    c.insert("rule".into(), json!("every resolve_property call of every (query, dataset) case of the enumerated space is checked against ResolveInfo::required_properties() (membership and no duplicates), and every list reported for that vertex through any other hint object (the destination of the edge being resolved, look-ahead along unresolved edges up to 3 levels from every call's info) must contain the requested property too; distinct = distinct (query, vertex id, property) triples seen in a call"));
+    c.insert("lists_checked".into(), json!(lists_checked.load(Ordering::Relaxed)));
     c.insert("corpus".into(), stats.to_json());
     c.insert("samples".into(), json!(samples.lock().unwrap().items));
     c.insert("exhaustive".into(), json!(!stats.capped));
